@@ -642,6 +642,21 @@ def g_point_arith(ctx, rng, i):
             f()
         except Exception:
             pass
+    # unary minus is the multiplication by -1 (affine for points: a direction is reversed, a finite point reflected in the origin), in every spelling
+    for name, f_ in (("-p", lambda: -p), ("np.negative(p)", lambda: np.negative(p)), ("0 - p ... p - p - p", lambda: (p - p) - p)):
+        try:
+            got, want = f_(), p * (-1)
+            ga, wa = np.asarray(got.array, dtype=complex), np.asarray(want.array, dtype=complex)
+            if name.startswith("0"):
+                # compared as points: finite points by their Cartesian part, directions by their coordinates
+                inf = np.isclose(wa[..., -1], 0)
+                ok = ga.shape == wa.shape and np.allclose(np.where(inf[..., None], ga, ga / np.where(inf, 1, ga[..., -1])[..., None]), np.where(inf[..., None], wa, wa / np.where(inf, 1, wa[..., -1])[..., None]), atol=1e-9)
+            else:
+                ok = ga.shape == wa.shape and np.allclose(ga, wa, rtol=1e-12, atol=0) and type(got) is type(want)
+            ctx.judge("point_arith", bool(ok), [p], what=f"{name} is not p * (-1): {np.asarray(got.array).tolist()} vs {np.asarray(want.array).tolist()}"[:300], op="__neg__ (points)",
+                      feat={"op": "__neg__", "spelling": name}, nontrivial=True)
+        except Exception as e:  # noqa: BLE001
+            ctx.judge("point_arith", False, [p], what=f"{name} raised {type(e).__name__}: {str(e)[:80]}", op="__neg__ (points)", feat={"op": "__neg__", "exc": type(e).__name__})
 
 
 def g_transpose(ctx, rng, i):
